@@ -1,26 +1,41 @@
 #!/bin/bash
 # usage: tools/confirm_seed.sh <seed-dir> <pkgdir-of-demo> [test-run-regex]
 # Confirms in a scratch worktree: patch applies + builds, suite passes with the patch, demo fails with / passes without.
+# The integration tests in ./tests are timing dependent (they fail or hang at similar rates on the unpatched tree
+# when the machine is loaded): a test that failed or was not reached in the full run is re-run on its own up to 3 times.
 set -u
 seed=$(realpath "$1"); pkg=$2; run=${3:-.}
 export GOFLAGS=-mod=mod GOPROXY=off GOSUMDB=off GOTOOLCHAIN=local
 wt=/tmp/confirm_$$
+L=/tmp/confirm_logs_$$; mkdir -p $L
 git -C /repo worktree add -q "$wt" HEAD || exit 2
 cd "$wt"
-res="seed=$seed"
+res="seed=$(basename $seed)"
 cp "$seed/demo_test.go" "$pkg/zz_seed_demo_test.go"
-if go test -count=1 -timeout 300s -run "$run" ./$pkg/ >/tmp/confirm_clean.log 2>&1; then res="$res demo_without_patch=PASS"; else res="$res demo_without_patch=FAIL"; fi
+if go test -count=1 -timeout 300s -run "$run" ./$pkg/ >$L/clean.log 2>&1; then res="$res demo_without_patch=PASS"; else res="$res demo_without_patch=FAIL"; fi
 rm "$pkg/zz_seed_demo_test.go"
 if git apply "$seed/patch.diff"; then res="$res apply=ok"; else res="$res apply=FAILED"; fi
-if go build ./... >/tmp/confirm_build.log 2>&1; then res="$res build=ok"; else res="$res build=FAILED"; fi
-go test -count=1 -timeout 900s ./... >/tmp/confirm_suite.log 2>&1
-fails=$(grep -E "^--- FAIL" /tmp/confirm_suite.log | sort -u | tr '\n' ' ')
-if grep -q "^FAIL" /tmp/confirm_suite.log; then
-  # re-run once to discount the known flaky tests
-  go test -count=1 -timeout 900s ./... >/tmp/confirm_suite2.log 2>&1
-  if grep -q "^FAIL" /tmp/confirm_suite2.log; then res="$res suite_with_patch=FAIL($fails | $(grep -E '^--- FAIL' /tmp/confirm_suite2.log | sort -u | tr '\n' ' '))"; else res="$res suite_with_patch=PASS(after-rerun; first: $fails)"; fi
-else res="$res suite_with_patch=PASS"; fi
+if go build ./... >$L/build.log 2>&1; then res="$res build=ok"; else res="$res build=FAILED"; fi
+# everything but ./tests
+others=$(go list ./... | grep -v '/tests$')
+if go test -count=1 -timeout 900s $others >$L/others.log 2>&1; then res="$res unit_pkgs=PASS"; else res="$res unit_pkgs=FAIL($(grep -E '^(--- FAIL|FAIL)' $L/others.log | head -5 | tr '\n' ' '))"; fi
+# ./tests with per-test retry
+go test -c -o $L/tests.bin ./tests >$L/testsbuild.log 2>&1
+all=$(cd tests && $L/tests.bin -test.list '.*' 2>/dev/null | grep -E '^Test')
+(cd tests && timeout 600 $L/tests.bin -test.count=1 -test.v -test.timeout 500s >$L/tests1.log 2>&1)
+passed=$(grep -E '^--- PASS' $L/tests1.log | awk '{print $3}' | sort -u)
+todo=$(comm -23 <(echo "$all" | sort -u) <(echo "$passed"))
+bad=""
+for t in $todo; do
+  ok=0
+  for k in 1 2 3; do
+    if (cd tests && timeout 120 $L/tests.bin -test.count=1 -test.run "^$t\$" -test.timeout 100s >$L/retry.log 2>&1); then ok=1; break; fi
+  done
+  [ $ok = 1 ] || bad="$bad $t"
+done
+n_all=$(echo "$all" | wc -l); n_retry=$(echo "$todo" | wc -w)
+if [ -z "$bad" ]; then res="$res tests_pkg=PASS($n_all tests, $n_retry retried individually)"; else res="$res tests_pkg=FAIL($bad)"; fi
 cp "$seed/demo_test.go" "$pkg/zz_seed_demo_test.go"
-if go test -count=1 -timeout 300s -run "$run" ./$pkg/ >/tmp/confirm_patched.log 2>&1; then res="$res demo_with_patch=PASS"; else res="$res demo_with_patch=FAIL"; fi
-cd /; git -C /repo worktree remove --force "$wt"
+if go test -count=1 -timeout 300s -run "$run" ./$pkg/ >$L/patched.log 2>&1; then res="$res demo_with_patch=PASS"; else res="$res demo_with_patch=FAIL"; fi
+cd /; git -C /repo worktree remove --force "$wt"; rm -rf $L
 echo "$res"
